@@ -1387,6 +1387,10 @@ func c12GenSafety(r *rand.Rand) []gts.Feature {
 		case 4:
 			b.Props = gts.Props{{"label", "t"}, {"note", "x y"}, {"pseudo", ""}}
 		default:
+			// the same text split into two values, for several separators a lossy
+			// class key could use.
+			sep := []string{" ", ",", ";", "=", "; ", "] [", "\" \""}[r.Intn(7)]
+			a.Props = gts.Props{{"label", "t"}, {"note", "x" + sep + "y"}}
 			b.Props = gts.Props{{"label", "t"}, {"note", "x", "y"}}
 		}
 		tab = append(tab, a, b)
@@ -1533,6 +1537,8 @@ func (m c12) Run(c *fw.Ctx) {
 					case 1:
 						fb.Props = gts.Props{{"label", "j"}, {"note", "x y"}}
 					default:
+						sep := []string{" ", ",", ";", "="}[(len(model.SafeString(a))+len(model.SafeString(b)))%4]
+						fa.Props = gts.Props{{"label", "k"}, {"note", "x" + sep + "y"}}
 						fb.Props = gts.Props{{"label", "k"}, {"note", "x", "y"}}
 					}
 					m.safetyCase(c, []gts.Feature{fa, fb})
